@@ -55,6 +55,9 @@ func deduceMsgType(msg interface{}, typ reflect.Type) MessageType {
 		if gogo.MessageName(gogoMsg) != "" {
 			return MessageTypeGogo
 		}
+		// not registered with Gogo, so it is a Google v1 message
+		return MessageTypeGoogleV1
 	}
-	return MessageTypeGoogleV1
+	// a pointer to something that is not a Protobuf message at all
+	return MessageTypeUnknown
 }
